@@ -23,6 +23,19 @@ func genC05(g *genCtx) {
 		d := pool[r.intn(len(pool))]
 		g.add(&Case{Kind: "race", Doc: d, Ctx: pickNodeCtx(r, d), Expr: genAnyExpr(r)})
 	}
+	// run-time regexp patterns nobody has requested before (unique per case and per node): the goroutines'
+	// first lookups miss and insert into the shared pattern cache while the others look up
+	for i := 0; i < g.scale(60, 600); i++ {
+		d := pool[r.intn(len(pool))]
+		u := fmt.Sprintf("u%dx%d", g.r.intn(1<<30), i)
+		e := r.pick([]string{
+			"//*[matches(local-name(), concat('^(', local-name(), '|" + u + ")$'))]",
+			"count(//*[matches(concat(local-name(), '" + u + "'), concat(local-name(..), '" + u + "', '?'))])",
+			"//*[replace(local-name(), concat(local-name(), '" + u + "|.'), 'x') = 'x']",
+			"string-join(//*[matches(string(@k), concat('" + u + "|', local-name()))], ',')",
+		})
+		g.add(&Case{Kind: "race", Doc: d, Ctx: Ref{0, -1}, Expr: e})
+	}
 }
 
 // ---- C06 ----
@@ -233,6 +246,8 @@ func genC15(g *genCtx) {
 		"string-length(substring('abc', 0 div 0, 1))", "translate('abc', 'ab', '')", "translate('', '', 'x')", "concat('a', 0 div 0)", "matches('a', string(//a))", "replace('a', string(@k), 'x')",
 		"translate('abc', 'abc', 'é')", "translate('aé', 'éa', 'x')", "translate(string(.), 'ab', 'ß')", "substring('héllo', 2, 3)", "string-length('中文')", "contains('é', 'é')",
 		"substring-after('aéb', 'é')", "lower-case('ÀB')", "normalize-space(' é ')", "concat('é', 'ß')", "starts-with('éa', 'é')", "ends-with('aé', 'é')", "//*[. = 'é']",
+		"replace('abc', '(x', 'y')", "replace('abc', concat('[a', ''), 'y')", "matches('abc', concat('(x', ''))", "matches('a', concat('*', 'a'))",
+		"replace(string(.), 'a{2,1}', '-')", "//*[matches(local-name(), concat('(', local-name()))]", "count(//*[replace(local-name(), '[', '') = ''])",
 		"true() or $x", "a[true() = 1]", "a[round(1)]", "a[round(1.2) = 1]", "(a)[round(1)]", "boolean(round(0))", "string(round(2.5))", "round(2.5) + 1", "number(true())", "sum(true())"}
 	for _, e := range fixed {
 		for k := 0; k < 3; k++ {
@@ -258,8 +273,42 @@ func genC15(g *genCtx) {
 }
 
 // ---- C16 ----
+// histories over the exported pattern cache: swaps (capacity, customised loader), run-time and literal
+// patterns, valid and invalid, repeated — the loader must be called exactly on misses, errors are not
+// remembered, the compilation used is the current cache's
+func genRxCache(g *genCtx, n int) {
+	r := g.r
+	valid := []string{"abc", "a|b", "^a.c$", "b+", "[a-c]x", "ABC", "x?y", "(ab)+"}
+	invalid := []string{"(x", "[a", "*a", "a{2,1}", "(?P<n", "x)"}
+	strs := []string{"abc", "ABC", "aXc", "bbb", "ax", "y", "abab", ""}
+	for i := 0; i < n; i++ {
+		var ops []string
+		ops = append(ops, fmt.Sprintf("W%d,%d", r.intn(4), r.intn(2)))
+		for k := 0; k < 3+r.intn(8); k++ {
+			if r.chance(1, 5) {
+				ops = append(ops, fmt.Sprintf("W%d,%d", r.intn(4), r.intn(2)))
+				continue
+			}
+			v, p := 1, r.pick(valid)
+			if r.chance(1, 4) {
+				v, p = 0, r.pick(invalid)
+			}
+			switch r.intn(4) {
+			case 0:
+				ops = append(ops, fmt.Sprintf("L%d,%s", v, hx(p)))
+			case 1:
+				ops = append(ops, fmt.Sprintf("R%d,%s,%s", v, hx(p), hx(r.pick(strs))))
+			default:
+				ops = append(ops, fmt.Sprintf("M%d,%s,%s", v, hx(p), hx(r.pick(strs))))
+			}
+		}
+		g.add(&Case{Kind: "rxcache", Extra: strings.Join(ops, ";")})
+	}
+}
+
 func genC16(g *genCtx) {
 	r := g.r
+	genRxCache(g, g.scale(1500, 15000))
 	keys := []string{"k0", "k1", "k2", "f0", "k3"}
 	maxLen := g.scale(5, 7)
 	nk := g.scale(4, 5)
